@@ -523,6 +523,15 @@ def symbolic_text_cells(fn: ast.AST) -> Dict[str, int]:
     return out
 
 
+def _ancestors(mod: Any, n: ast.AST, stop: ast.AST) -> List[ast.AST]:
+    out = []
+    p = mod.parents.get(n)
+    while p is not None and p is not stop:
+        out.append(p)
+        p = mod.parents.get(p)
+    return out
+
+
 def run(ctx: Any, prog: Program) -> None:
     dmx = prog.module('dmx')
     fold = Folder(prog, dmx)
@@ -858,6 +867,73 @@ def run(ctx: Any, prog: Program) -> None:
             compared.add('*' + suffix if cut else '*' + suffix + ' (not cut by its length)')
     for w_ in sorted(written):
         ctx.check('C14.X5', w_ in compared, dmx, ek, f'keyword "{w_}" is written but the parser never compares against it (parser knows {sorted(compared)})', func='Element._export_kv2', text=f'keyword {w_}')
+    # ---- X11: what the KeyValues2 writer puts where an element is referenced -----------------------------------------------------------------
+    # the reader maps a blank id to NULL, any other id to the element / a stub with that id, and an inline block to a new element.  The writer
+    # therefore has to write: NULL -> blank id, stub or root element -> its id, anything else -> inline.  Both reference positions (array member,
+    # scalar attribute) are decision lists over the same four kinds of element; each list is evaluated on each kind.
+    ctx.rule('C14.X11', 'KV2 writer: NULL is written as the blank id, stubs and root elements by id, other elements inline - in array and scalar position', floor=8)
+    ek = dmx.func('Element._export_kv2')
+    KINDS = {'NULL': {'is_null': True, 'is_stub': False, 'stubclass': True, 'in_roots': False}, 'stub': {'is_null': False, 'is_stub': True, 'stubclass': True, 'in_roots': False},
+             'root element': {'is_null': False, 'is_stub': False, 'stubclass': False, 'in_roots': True}, 'other element': {'is_null': False, 'is_stub': False, 'stubclass': False, 'in_roots': False}}
+    WANT = {'NULL': 'blank', 'stub': 'id', 'root element': 'id', 'other element': 'inline'}
+
+    def atom(t: ast.AST, kind: Dict[str, bool]) -> Optional[bool]:
+        if isinstance(t, ast.BoolOp):
+            vals = [atom(v, kind) for v in t.values]
+            if any(v is None for v in vals):
+                return None
+            return all(vals) if isinstance(t.op, ast.And) else any(vals)
+        if isinstance(t, ast.UnaryOp) and isinstance(t.op, ast.Not):
+            v = atom(t.operand, kind)
+            return None if v is None else not v
+        if isinstance(t, ast.Attribute) and t.attr in ('is_null', 'is_stub'):
+            return kind[t.attr]
+        if isinstance(t, ast.Call) and dotted(t.func) == 'isinstance' and len(t.args) == 2 and dotted(t.args[1]) == 'StubElement':
+            return kind['stubclass']
+        if isinstance(t, ast.Compare) and len(t.ops) == 1:
+            l_, r_ = t.left, t.comparators[0]
+            if isinstance(t.ops[0], (ast.Is, ast.IsNot, ast.Eq, ast.NotEq)) and 'NULL' in (dotted(l_), dotted(r_)):
+                return kind['is_null'] == isinstance(t.ops[0], (ast.Is, ast.Eq))
+            if isinstance(t.ops[0], (ast.In, ast.NotIn)) and isinstance(l_, ast.Attribute) and l_.attr == 'uuid':
+                return kind['in_roots'] == isinstance(t.ops[0], ast.In)
+        return None
+
+    def outcome(body: List[ast.stmt]) -> Optional[str]:
+        for st in body:
+            for c in ast.walk(st):
+                if isinstance(c, ast.Call) and isinstance(c.func, ast.Attribute) and c.func.attr == '_export_kv2':
+                    return 'inline'
+                if isinstance(c, ast.Constant) and isinstance(c.value, bytes) and c.value.startswith(b'"element" '):
+                    return 'blank' if c.value.startswith(b'"element" ""') else 'id'
+        return None
+
+    def decide(ifn: ast.If, kind: Dict[str, bool]) -> Optional[str]:
+        cur: Any = ifn
+        while isinstance(cur, ast.If):
+            v = atom(cur.test, kind)
+            if v is None:
+                return None
+            if v:
+                return outcome(cur.body)
+            if len(cur.orelse) == 1 and isinstance(cur.orelse[0], ast.If):
+                cur = cur.orelse[0]
+            else:
+                return outcome(cur.orelse)
+        return None
+    ref_ifs = [n for n in ast.walk(ek) if isinstance(n, ast.If) and outcome([b for b in n.body if not isinstance(b, (ast.If, ast.For, ast.While, ast.With, ast.Try))]) in ('blank', 'id')
+               and not (isinstance(dmx.parents.get(n), ast.If) and n in dmx.parents.get(n).orelse)]
+    ctx.shape('C14.X11', len(ref_ifs) == 2, dmx, ek, f'_export_kv2 has {len(ref_ifs)} element-reference decision lists (array member and scalar attribute expected)', func='Element._export_kv2', text='two reference positions')
+    for ifn in ref_ifs:
+        pos = 'array member' if any(isinstance(a, (ast.For, ast.While)) for a in _ancestors(dmx, ifn, ek)) else 'scalar attribute'
+        for kname, kind in KINDS.items():
+            got = decide(ifn, kind)
+            if got is None:
+                ctx.shape('C14.X11', False, dmx, ifn, f'{pos}: test chain not evaluable for {kname}', func='Element._export_kv2', text=f'{pos}: {kname}')
+                continue
+            ctx.check('C14.X11', got == WANT[kname], dmx, ifn, f'{pos}: a {kname} is written {"as the blank id" if got == "blank" else ("by its id" if got == "id" else "inline")}, but the reader needs it '
+                      f'{"as the blank id" if WANT[kname] == "blank" else ("by its id" if WANT[kname] == "id" else "inline")}' + (' (a NULL written by id comes back as a stub with the all-zero id, not as NULL)' if kname == 'NULL' else ''),
+                      func='Element._export_kv2', text=f'{pos}: {kname}')
+
     # ---- X6 ------------------------------------------------------------------------------------------------
     n6 = 0
     for fname in ('parse_bin', 'parse_kv2', '_parse_kv2_element'):
@@ -970,6 +1046,8 @@ def run(ctx: Any, prog: Program) -> None:
 
 
 MUTANTS: List[Dict[str, Any]] = [
+    {'id': 'kv2_array_null_by_id', 'file': 'dmx.py', 'find': "                        if child.is_null:\n                            file.write(b'\"element\" \"\"')\n                        elif child.uuid in roots or child.is_stub:", 'replace': "                        if child.uuid in roots or isinstance(child, StubElement):", 'expect': 'C14.X11'},
+    {'id': 'ok_kv2_array_null_by_identity', 'file': 'dmx.py', 'find': "                        if child.is_null:\n                            file.write(b'\"element\" \"\"')\n                        elif child.uuid in roots or child.is_stub:", 'replace': "                        if child is NULL:\n                            file.write(b'\"element\" \"\"')\n                        elif isinstance(child, StubElement) or child.uuid in roots:", 'expect': None},
     {'id': 'vec4_text_six_significant_digits', 'file': 'dmx.py', 'find': "    return f'{_fmt_float(v.x)} {_fmt_float(v.y)} {_fmt_float(v.z)} {_fmt_float(v.w)}'", 'replace': "    return f'{v.x:.6g} {v.y:.6g} {v.z:.6g} {v.w:.6g}'", 'expect': 'C14.X10'},
     {'id': 'root_index_zero_taken_for_missing', 'file': 'dmx.py', 'find': "                        if not isinstance(subelem, StubElement) and subelem.uuid not in elem_to_ind:", 'replace': "                        if not isinstance(subelem, StubElement) and not elem_to_ind.get(subelem.uuid):", 'expect': 'C14.X9'},
     {'id': 'matrix_text_rows_are_columns', 'file': 'dmx.py', 'find': "    return (\n        f'{mat[0, 0]} {mat[0, 1]} {mat[0, 2]} 0.0\\n'\n        f'{mat[1, 0]} {mat[1, 1]} {mat[1, 2]} 0.0\\n'\n        f'{mat[2, 0]} {mat[2, 1]} {mat[2, 2]} 0.0\\n'\n        '0.0 0.0 0.0 1.0'\n    )", 'replace': "    rows = [' '.join([str(mat[x, y]) for x in range(3)]) + ' 0.0' for y in range(3)]\n    rows.append('0.0 0.0 0.0 1.0')\n    return '\\n'.join(rows)", 'expect': 'C14.X4'},
